@@ -417,16 +417,19 @@ func (h *Header) SetExtension(id uint8, payload []byte) error { //nolint:gocogni
 		return nil
 	}
 
-	// No existing header extensions
-	h.Extension = true
-
+	// No existing header extensions: pick the profile that can carry this element
 	switch payloadLen := len(payload); {
-	case payloadLen <= 16:
+	case id >= 1 && id <= 14 && payloadLen >= 1 && payloadLen <= 16:
 		h.ExtensionProfile = extensionProfileOneByte
-	case payloadLen > 16 && payloadLen < 256:
+	case id < 1:
+		return fmt.Errorf("%w actual(%d)", errRFC8285TwoByteHeaderIDRange, id)
+	case payloadLen > 255:
+		return fmt.Errorf("%w actual(%d)", errRFC8285TwoByteHeaderSize, payloadLen)
+	default:
 		h.ExtensionProfile = extensionProfileTwoByte
 	}
 
+	h.Extension = true
 	h.Extensions = append(h.Extensions, Extension{id: id, payload: payload})
 
 	return nil
